@@ -22,6 +22,10 @@ HERE = os.path.dirname(os.path.abspath(__file__))
 VERIF = os.path.dirname(HERE)
 sys.path.insert(0, HERE)
 from mutants import M  # noqa
+import glob as _glob
+for _p in sorted(_glob.glob(os.path.join(HERE, "benign", "*.diff"))):
+    _n = os.path.basename(_p)[:-5]
+    M.append(dict(id="bd-" + _n, prop=_n.split("-")[0], patch=_p, rule="SILENT", note="independently written refactoring", file="", old="", new="", nth=1))
 
 REPO = os.environ.get("AX_REPO", "/repo")
 
@@ -38,7 +42,11 @@ def run_mutant(mu, lane_dir):
     tree = os.path.join(scratch, "tree")
     try:
         copy_tree(tree)
-        if mu.get("edits"):
+        if mu.get("patch"):
+            r = subprocess.run(["git", "apply", mu["patch"]], cwd=tree, capture_output=True, text=True)
+            if r.returncode != 0:
+                return mu["id"], "stale", "patch does not apply: " + r.stderr[-200:]
+        elif mu.get("edits"):
             for ed in mu["edits"]:
                 p = os.path.join(tree, ed[0])
                 s = open(p).read()
@@ -94,11 +102,14 @@ def main():
     ap.add_argument("--props", default="")
     ap.add_argument("--lanes", type=int, default=4)
     ap.add_argument("--benign", action="store_true", help="only the behaviour-preserving variants")
+    ap.add_argument("--no-diffs", action="store_true", help="skip the diff-based variants under selftest/benign")
     a = ap.parse_args()
     sel = [mu for mu in M if (not a.only or mu["id"] in a.only.split(",")) and
            (not a.props or set(mu["prop"].split(",")) & set(a.props.split(",")))]
     if a.benign:
         sel = [mu for mu in sel if mu["rule"] == "SILENT"]
+    if a.no_diffs:
+        sel = [mu for mu in sel if not mu.get("patch")]
     base = tempfile.mkdtemp(prefix="axselftest-")
     results = {}
     try:
